@@ -50,8 +50,10 @@ func runningMin(fa *FA, phi *ssa.Phi) (cands []ssa.Value, inits []ssa.Value, bad
 }
 
 func checkGather(w *World, fn *ssa.Function, role string, n int, top int64) string {
-	fa := w.FA(fn)
-	terms := gatherTerms(fn, role)
+	return checkGatherTerms(w.FA(fn), gatherTerms(fn, role), role, n, top)
+}
+
+func checkGatherTerms(fa *FA, terms []gatherTerm, role string, n int, top int64) string {
 	js := map[int64]int64{}
 	for _, t := range terms {
 		L := fa.Lin(t.Idx)
@@ -301,7 +303,101 @@ func reportFirstDiff(w *World, r *Report, fns map[string]*ssa.Function) {
 				usesBE = true
 			}
 		})
+		// alternative short path: a loop over the bytes that exist, byte i at shift 56-8i, accumulated from 0 (the
+		// missing bytes stay 0): no padded copy needed
+		var loopS []gatherTerm
 		if !usesBE {
+			fa := w.FA(fn)
+			for _, t := range gatherTerms(fn, "s") {
+				if !fa.Lin(t.Idx).IsConst() {
+					loopS = append(loopS, t)
+				}
+			}
+		}
+		if len(loopS) > 0 {
+			fa := w.FA(fn)
+			lenS := linAtom("call:builtin len(p0)")
+			var constS []gatherTerm
+			for _, t := range gatherTerms(fn, "s") {
+				if fa.Lin(t.Idx).IsConst() {
+					constS = append(constS, t)
+				}
+			}
+			if len(constS) > 0 {
+				if e := checkGatherTerms(fa, constS, "s", 8, 56); e != "" {
+					bad = "direct branch: " + e
+				}
+				for _, t := range constS {
+					bd := fa.BoundsAt(t.Ins.Block(), lenS)
+					if !(bd.HasLo && bd.Lo >= 8) {
+						bad = "bytes of s are read directly on an edge where len(s) may be < 8"
+					}
+				}
+			}
+			for _, t := range loopS {
+				iv, ok := fa.InductionOf(t.Idx, t.Ins.Block())
+				switch {
+				case !ok || !iv.FirstConst || iv.First != 0 || iv.Step != 1 || !fa.Lin(t.Idx).Eq(linAtom(fa.VN(iv.Phi))):
+					bad = "the byte loop does not visit s[0], s[1], ..."
+				case !iv.HasN || !iv.N.Eq(lenS):
+					bad = "the byte loop does not stop at len(s) exactly"
+				case t.ShiftVal == nil || !fa.Lin(t.ShiftVal).Eq(linConst(56).addScaled(fa.Lin(t.Idx), -8)):
+					bad = "byte i of the byte loop is not shifted by 56-8i (big-endian)"
+				case fa.earlyExit(iv) != "":
+					bad = "the byte loop can be left before len(s): " + fa.earlyExit(iv)
+				default:
+					if !isUnsigned(t.ShiftVal.Type()) {
+						if bs := fa.BoundsAt(t.Ins.Block(), fa.Lin(t.ShiftVal)); !(bs.HasLo && bs.Lo >= 0) {
+							bad = "the signed shift 56-8i of the byte loop is not bounded below by 0 (a negative shift count panics)"
+						}
+					}
+					// accumulated: acc = acc | term with acc a loop-carried word starting at 0 that is what get64Bits returns
+					okAcc := false
+					if cv, ok := t.Ins.(*ssa.Convert); ok && cv.Referrers() != nil {
+						for _, u := range *cv.Referrers() {
+							sh, ok := u.(*ssa.BinOp)
+							if !ok || sh.Op != token.SHL || sh.Referrers() == nil {
+								continue
+							}
+							for _, u2 := range *sh.Referrers() {
+								acc, ok := u2.(*ssa.BinOp)
+								if !ok || (acc.Op != token.OR && acc.Op != token.ADD && acc.Op != token.XOR) {
+									continue
+								}
+								other := acc.X
+								if other == ssa.Value(sh) {
+									other = acc.Y
+								}
+								ph, ok := other.(*ssa.Phi)
+								if !ok || ph.Block() != iv.Phi.Block() {
+									continue
+								}
+								good := true
+								for ei, e := range ph.Edges {
+									if ph.Block().Dominates(ph.Block().Preds[ei]) {
+										good = good && e == ssa.Value(acc)
+									} else if k, isK := constUint64(e); !isK || k != 0 {
+										good = false
+									}
+								}
+								returned := false
+								for _, ret := range returnsOf(fn) {
+									if len(ret.Results) == 1 && stripConv(ret.Results[0]) == ssa.Value(ph) {
+										returned = true
+									}
+								}
+								if good && returned {
+									okAcc = true
+								}
+							}
+						}
+					}
+					if !okAcc && bad == "" {
+						bad = "the bytes of the byte loop are not accumulated (acc |= byte << shift, acc starting at 0) into the returned word"
+					}
+				}
+			}
+		} else if !usesBE {
 			if e := checkGather(w, fn, "s", 8, 56); e != "" {
 				bad = "direct branch: " + e
 			}
@@ -508,10 +604,10 @@ func reportFirstDiff(w *World, r *Report, fns map[string]*ssa.Function) {
 				bad = "entry is not sFirstDiffBit(...)"
 				return
 			}
-			c0, i0, ok0 := asElemLoad(call.Common().Args[0])
-			c1, i1, ok1 := asElemLoad(call.Common().Args[1])
+			c0, i0, ok0 := fa.elemLoadLin(call.Common().Args[0])
+			c1, i1, ok1 := fa.elemLoadLin(call.Common().Args[1])
 			il := fa.Lin(ia.Index)
-			if !ok0 || !ok1 || c0 != ssa.Value(fn.Params[0]) || c1 != ssa.Value(fn.Params[0]) || !fa.Lin(i0).Eq(il) || !fa.Lin(i1).Eq(il.Add(linConst(1))) {
+			if !ok0 || !ok1 || c0 != ssa.Value(fn.Params[0]) || c1 != ssa.Value(fn.Params[0]) || !i0.Eq(il) || !i1.Eq(il.Add(linConst(1))) {
 				bad = "entry i is not the difference of keys[i] and keys[i+1]"
 			}
 		})
